@@ -158,6 +158,12 @@ fn c02_code(x: u64, k: usize) -> Option<Vec<(String, String)>> {
             else if txt.len() != k || !txt.bytes().all(|b| b"ACGT".contains(&b)) { why = format!("text {:?} is not k letters over ACGT", txt); }
             else if fcode(txt.as_bytes()) != x { why = format!("text {:?} re-encodes to {}", txt, fcode(txt.as_bytes())); }
             else if fcode(&rc_text(txt.as_bytes())) != *rc { why = "rev_comp differs from code of reverse-complemented text".into(); }
+            else {
+                // decoding and the iterator's encoding are inverse: the decoded text, read back by the iterator, is the one pair (x, rev_comp(x))
+                let t2 = txt.clone().into_bytes();
+                let back: Vec<(u64, u64)> = KmerGenerator::new(&t2, k).collect();
+                if back != vec![(x, *rc)] { why = format!("the decoded text {:?} read back by the iterator gives {:?}, expected [({}, {})]", txt, back, x, rc); }
+            }
         }
         (Err(e), _) | (_, Err(e)) => why = format!("panic: {}", e),
     }
